@@ -184,6 +184,23 @@ def condition_form_scripts(tier, with_starts=False):
     return out
 
 
+def scale_scripts(tier):
+    """beyond the small bounds: loop bodies made of the SHORTEST statements (`set b = 0` is 3 bytes: up to 84 of them fit the one-byte
+    back jump, far more than the 20-34 `put` calls of long_body_scripts), and if / else parts just below and above 32 768 bytes (the
+    forward jump offset needs its top bit)"""
+    out = []
+    z = lambda: ["set", ["l", "b"], ["i", 0]]
+    for k in (60, 63, 64, 65, 70, 80, 82, 83, 84):
+        for loop in (["while", ["b", "eq", ["l", "a"], ["i", 1]]], ["with", ["l", "i1"], ["i", 1], ["i", 9], "up"], ["in", ["l", "i1"], ["l", "lst"]]):
+            out.append(script_of([["on", "h0", []] + [["call", "put", ["i", 1]], loop + [z() for _ in range(k)], ["call", "put", ["i", 2]]]], kind="scale-short-statements"))
+    put = lambda i: ["call", "put", ["i", i % 100]]
+    for n in ((5460, 5461, 5462, 5470) if tier != "quick" else (5461, 5462)):
+        body = [put(i) for i in range(n)]
+        out.append(script_of([["on", "h0", []] + [["if", ["b", "lt", ["l", "c"], ["i", 1]], body, []], put(1)]], kind="scale-32k-then"))
+        out.append(script_of([["on", "h0", []] + [["if", ["b", "lt", ["l", "c"], ["i", 1]], [put(2)], body], put(1)]], kind="scale-32k-else"))
+    return out
+
+
 def has_dead_code(items):
     for i, it in enumerate(items):
         if it == "x" and i < len(items) - 1:
@@ -449,6 +466,7 @@ def cases(rng, tier):
         scripts += protocol_scripts(rng, tier) + empty_body_scripts(rng, 300)
         scripts += clean_exit_scripts(rng, 600)
         scripts += condition_form_scripts(tier)
+        scripts += scale_scripts(tier)
     else:
         scripts += skeleton_scripts(5, 1, "skel-k5-len1")
         scripts += skeleton_scripts(4, 1, "skel-k4-len01", empties=True)
@@ -458,6 +476,7 @@ def cases(rng, tier):
         scripts += protocol_scripts(rng, tier) + empty_body_scripts(rng, 6000)
         scripts += clean_exit_scripts(rng, 20000 if tier == "thorough" else 8000)
         scripts += condition_form_scripts(tier)
+        scripts += scale_scripts(tier)
     # corpus replays are single-script cases (core prepends them)
     cs, rejected = build_cases(scripts)
     cases.rejected = rejected
